@@ -687,7 +687,14 @@ class NeedChoice(BaseException):
         self.n = n
 
 
-def exhaustive(hs, depth, maxloops=2):
+# variant of the alphabet for the module: start A is the state declared WARN (not busy), chained states go on to the
+# undecorated st_0, the cleanup sequence to st_2 (busy) - the engagements in which the author declared a non-busy status
+EX_OPS_WARN = [EX_OPS[0], ['req', ['start', 4, 0, [[0, 1]], None]],
+               ['req', ['start', 3, DEFAULT_CLEAN, [[0, 2], [1, 5]], [150, 'x']]], EX_OPS[3]]
+EX_STATE_WARN = [{'posts': [], 'fin': None, 'ret': ['next', 0]}] + EX_STATE[1:]
+
+
+def exhaustive(hs, depth, maxloops=2, warn=False):
     """lazy enumeration of all executions with at most `depth` choices (ops and behaviours of calls)"""
     stack = [[]]
     while stack:
@@ -704,10 +711,10 @@ def exhaustive(hs, depth, maxloops=2):
             return None
 
         def choose(kind):
-            return pick(EX_STATE if kind == 'state' else EX_CLEAN)
+            return pick((EX_STATE_WARN if warn else EX_STATE) if kind == 'state' else EX_CLEAN)
 
         def next_op():
-            return pick(EX_OPS_HS if hs else EX_OPS)
+            return pick(EX_OPS_WARN if warn else EX_OPS_HS if hs else EX_OPS)
         case = {'hasStates': hs, 'maxloops': maxloops, 'script': [], 'ops': [], 'env': []}
         try:
             events, errors, script, ops = impl_run(case, choose=choose, next_op=next_op)
@@ -900,7 +907,12 @@ def gen_split(rng):
     case = gen_random(rng, True, False)
     case['threaded'] = False
     b = rng.randrange(0, 12)
-    case['split'] = [b, rng.randint(1, 9), b + rng.choice([1, 1, 2, 3, 5]), gen_req(rng, True)]
+    e = b + rng.choice([1, 1, 2, 3, 5])
+    case['split'] = [b, rng.randint(1, 9), e, gen_req(rng, True)]
+    if rng.random() < 0.3:
+        # a further request (third thread) while the pre-empted one is in flight
+        sl = rng.randrange(b, e + 1)
+        case['env'] = sorted([x for x in case['env'] if x[0] != sl] + [[sl, [gen_req(rng, True)]]])
     if not any(op[0] == 'cycle' for op in case['ops']):
         case['ops'].append(['cycle'])
     return case
@@ -1118,6 +1130,9 @@ def run(ctx):
                 check_cases(ctx, res, batch, 'exhaustive')
                 batch = []
         check_cases(ctx, res, batch, 'exhaustive')
+    # the module with the alphabet in which a status that is not busy is declared (state and override), one level less deep
+    batch = [(case, ev, err) for case, ev, err in exhaustive(True, depth - 1, warn=True)]
+    check_cases(ctx, res, batch, 'exhaustive-warn')
     # ---------- catalogue: interruptions x cleanups ----------
     batch = []
     for _ in range(1 if not thorough else 5):
